@@ -81,8 +81,8 @@ PlainSeq(s) == [i \in 1..Len(s) |-> Plain(s[i])]
 (***************************************************************************)
 First(s) == IF s = <<>> THEN "" ELSE s[1]
 Last(its) == its[Len(its)]
-IsAttachWs(s) == /\ s # <<>> /\ \A i \in 1..Len(s) : s[i] \in {" ", "\t", "\n"}
-                 /\ Cardinality({i \in 1..Len(s) : s[i] = "\n"}) <= 1
+IsAttachWs(s) == /\ s # <<>> /\ \A i \in 1..Len(s) : s[i] \in {" ", "\t", "\n", "\r"}
+                 /\ Cardinality({i \in 1..Len(s) : s[i] \in {"\n", "\r"}}) <= 1
 IsTextNode(x) == x.k = "text" /\ x.kind # "Com"
 ZeroArgNames == {<<"c","a","p">>, <<"c","u","p">>, <<"i","n">>, <<"n","o","t","i","n">>, <<"i","n","f","t","y">>, <<"n","o","i","n","d","e","n","t">>}
 NKind(as, kind) == Cardinality({i \in 1..Len(as) : as[i].k = "group" /\ as[i].kind = kind})
@@ -93,6 +93,10 @@ IsHeadFor(x, nf) == /\ x.k = "cmd" /\ x.name \notin ZeroArgNames
                                                   ELSE NKind(x.args, "[") >= Sig(x.name)[2] /\ NKind(x.args, "{") >= Sig(x.name)[1]))
 IsHead(x) == IsHeadFor(x, "[")
 IsSizeCmd(x) == x.k = "cmd" /\ x.name \in Punct
+RECURSIVE EndsWithName(_)
+(* the source of x ends in the letters of a command name (x itself, or its last - bare command - argument) *)
+EndsWithName(x) == /\ x.k = "cmd" /\ x.body = <<>> /\ ~IsSizeCmd(x)
+                   /\ (x.args = <<>> \/ EndsWithName(x.args[Len(x.args)]))
 NoHead == T(<<"#">>)
 EnvHead == Cmd(<<"h">>, << Grp("{", <<>>, <<>>) >>)           \* stands for "\begin{name}" + arguments
 Anchor(hd, its) ==
@@ -111,11 +115,10 @@ CanFollow(fr, new) ==
       anchor == Anchor(fr.hd, its)
       prev == IF its = <<>> THEN fr.hd ELSE Last(its)
   IN /\ ~(nf \in {"{", "["} /\ IsHeadFor(anchor, nf))                                              \* G1
-     /\ ~(prev.k = "cmd" /\ prev.args = <<>> /\ prev.body = <<>> /\ ~IsSizeCmd(prev)
-            /\ (nf \in Letters \/ nf = "*"))                                                      \* G2
+     /\ ~(EndsWithName(prev) /\ (nf \in Letters \/ nf = "*"))                                     \* G2
      /\ ~(fr.ck = "arg" /\ fr.kind = "[" /\ HasTopBracketClose(new))                              \* G3
      /\ ~(IsTextNode(prev) /\ IsTextNode(new) /\ its # <<>>)                                      \* G8
-     /\ ~(prev.k = "text" /\ prev.kind = "Com" /\ ~(IsTextNode(new) /\ nf = "\n"))                \* G4
+     /\ ~(prev.k = "text" /\ prev.kind = "Com" /\ ~(IsTextNode(new) /\ nf \in {"\n", "\r"}))         \* G4 (a line break: LF or CR)
      /\ ~(prev.k = "math" /\ prev.kind = "$" /\ nf = "$")                                         \* G5: "$a$$..." is ambiguous; "$$a$$$b$" is not (longest match)
      /\ ~(IsTextNode(prev) /\ LoneBackslashEnd(prev.s))                                          \* a text run never ends in a lone backslash
 
